@@ -16,7 +16,8 @@ META = {
         'divmod/pow/abs/int/float/complex calls, six comparisons through _cmp_op with the lambda of '
         'the matching operator, _cmp_op = unit check then operator on values.  Because every body '
         'is literally the expression the property equates it with, conformance implies the '
-        'property for all operands (including the exception raised), modulo operator dispatch.'),
+        'property for all operands (including the exception raised), modulo operator dispatch.  '
+        'Identity shortcuts (`if other is self`) in comparisons are violations (NaN); witness operands include 2**53+1 so that float() detours on int values show.'),
     'rule_text': 'one obligation per required dunder method of Qty + _cmp_op paths + class-structure facts; '
                  'discharged by normal-form equality; distinct = distinct (rule, obligation) pairs',
     'trusted_base': ['Python data model dispatch of binary/reflected/unary operators and rich comparisons'],
